@@ -26,5 +26,50 @@ def regen_alpha(exe):
     return dump(exe, "alpha", "Alpha.v")
 
 
+def regen_valuetypes(exe=None):
+    """coq/Generated/ValueTypes.v + ValueTypesStatus.v from the source text of /repo/src/value.rs
+    (tools/valuetypes.py). Returns (ok, error text). On failure the previous ValueTypes.v is kept (the
+    executable model still builds) and ValueTypesStatus.v records the failure, which breaks the proof
+    obligation translation_complete."""
+    import valuetypes
+    gen = os.path.join(vlib.COQ, "Generated")
+    try:
+        text = valuetypes.render(valuetypes.translate())
+    except valuetypes.Untranslatable as e:
+        write_if_changed(os.path.join(gen, "ValueTypesStatus.v"), valuetypes.status(False, str(e)))
+        if not os.path.exists(os.path.join(gen, "ValueTypes.v")):
+            raise vlib.BuildError("tools/valuetypes.py cannot translate /repo/src/value.rs and there is no "
+                                  "previous Generated/ValueTypes.v: %s" % e)
+        return False, str(e)
+    write_if_changed(os.path.join(gen, "ValueTypes.v"), text)
+    write_if_changed(os.path.join(gen, "ValueTypesStatus.v"), valuetypes.status(True))
+    return True, ""
+
+
+def regen_takes(exe=None):
+    """coq/Generated/Takes.v + TakesProps.v from the source text of /repo/src (tools/takes.py, property C15).
+    Returns the translator's error list; on errors the previous files are kept (checks/c15.py then counts the
+    proof obligation as broken)."""
+    import takes
+    summary, errors = takes.regen()
+    gen = os.path.join(vlib.COQ, "Generated")
+    if errors and not (os.path.exists(os.path.join(gen, "Takes.v")) and os.path.exists(os.path.join(gen, "TakesProps.v"))):
+        raise vlib.BuildError("tools/takes.py cannot translate /repo/src and there is no previous Generated/Takes.v: %s"
+                              % "; ".join(errors))
+    return errors
+
+
 def regen_all(exe):
     regen_alpha(exe)
+    regen_exprtables(None)
+    regen_valuetypes(exe)
+    regen_takes(exe)
+
+
+def regen_exprtables(ctx):
+    """Generated/ExprTables.v (feature set fa) and ExprTablesMore.v (fc = option-more-parentheses)"""
+    exe_fa = vlib.harness_build("fa")
+    exe_fc = vlib.harness_build("fc")
+    a = dump(exe_fa, "exprtables", "ExprTables.v")
+    b = dump(exe_fc, "exprtables", "ExprTablesMore.v")
+    return a or b
